@@ -989,8 +989,14 @@ class TorConfig:
         # way to put things into a config and get them out again
         # nicely...unless you just don't assign a protocol
         if self.protocol:
+            # what we're sending is no longer "unsaved" -- so anything
+            # changed while Tor hasn't answered yet is kept for the
+            # next save() instead of being forgotten on completion
+            sent = self.unsaved
+            self.__dict__['unsaved'] = {}
             d = self.protocol.set_conf(*args)
-            d.addCallback(self._save_completed)
+            d.addCallbacks(self._save_completed, self._save_failed,
+                           errbackArgs=(sent,))
             return d
 
         else:
@@ -999,8 +1005,15 @@ class TorConfig:
 
     def _save_completed(self, *args):
         '''internal callback'''
-        self.__dict__['unsaved'] = {}
+        if not self.protocol:
+            self.__dict__['unsaved'] = {}
         return self
+
+    def _save_failed(self, fail, sent):
+        '''internal errback: Tor refused, so those changes are still pending'''
+        for k, v in sent.items():
+            self.unsaved.setdefault(k, v)
+        return fail
 
     def _find_real_name(self, name):
         keys = list(self.__dict__['parsers'].keys()) + list(self.__dict__['config'].keys())
